@@ -97,10 +97,16 @@ package clickhouse_planner
 
 //@ func (*LineFilterPlanner).re2Like
 //@   modifies nothing
-//@ func (*LineFilterPlanner).doLike
+// Substring filters become like(...)/notLike(...) == 1 on a raw SQL expression (never a match() node).
+//@ spec fn isRawCmp(c sql.SQLCondition) bool = typeis(c, "*sql.LogicalOp") && len(unbox(c, "*sql.LogicalOp").clauses) == 2 && typeis(unbox(c, "*sql.LogicalOp").clauses[0], "*sql.RawObject")
+//@ func (*LineFilterPlanner).enquoteStr
 //@   modifies nothing
-//@ func (*LineFilterPlanner).doLikeVal
+//@ func (*LineFilterPlanner).doLike [C07]
 //@   modifies nothing
+//@   ensures result1 == nil ==> isRawCmp(result0)
+//@ func (*LineFilterPlanner).doLikeVal [C07]
+//@   modifies nothing
+//@   ensures result1 == nil ==> isRawCmp(result0)
 
 // A prepared plan is executed again by live tailing: Process must not change
 // the planner's configuration (frame: only the statement being built and the
